@@ -47,6 +47,11 @@ def c19_cases(tier):
         (["--selected-operation", "ShipNames"], {"operation_name": "ShipNames"}),
         (["--variables-derives", "Debug,Clone"], {"variables_derives": "Debug,Clone"}),
         (["--response-derives", "Debug,PartialEq"], {"response_derives": "Debug,PartialEq"}),
+        # the flag values reach the library verbatim, whatever they name (the flag's own help text gives `Serialize,PartialEq`)
+        (["--response-derives", "Serialize,PartialEq"], {"response_derives": "Serialize,PartialEq"}),
+        (["--variables-derives", "Deserialize, Clone"], {"variables_derives": "Deserialize, Clone"}),
+        (["--response-derives", "Deserialize"], {"response_derives": "Deserialize"}),
+        (["--variables-derives", " Debug ,Default"], {"variables_derives": " Debug ,Default"}),
         (["--deprecation-strategy", "deny"], {"deprecation": "deny"}),
         (["--deprecation-strategy", "allow"], {"deprecation": "allow"}),
         (["--custom-scalars-module", "crate::scalars"], {"custom_scalars_module": "crate::scalars"}),
